@@ -218,12 +218,14 @@ func repoFrame() string {
 // stepFuel bounds every guarded library call (a typical render needs 10^3..10^4 steps).
 const stepFuel = 1_000_000
 
-// fuelOuts counts guarded calls stopped by the step fuel, guardMaxSteps is the most
-// steps any other guarded call used, both since the shard loop last reset them. A
-// case in which some call ran out of fuel while another call legitimately used a large
-// share of it is a case at the edge of the budget: which executions cross the edge
-// depends on the dimension varied (a shuffled map walk costs more steps), so such a
-// case gives no verdict (counted as heavy_case_no_verdict), never a violation.
+// fuelOuts counts guarded calls stopped by the step fuel since the shard loop last reset
+// it (guardMaxSteps: the most steps any completed call used). How many steps a render takes
+// legitimately depends on the dimension a check varies -- a shuffled map walk costs more than
+// a sorted one, a loop that breaks on the first match ends early under one map order and
+// runs to the end under another -- so an execution that ran out of fuel says nothing about
+// the others: a case in which any call was stopped by the fuel gives no verdict (counted as
+// heavy_case_no_verdict), never a violation. Termination is not among the claimed properties
+// (C04's progress clause has its own step budget).
 var fuelOuts int
 var guardMaxSteps int64
 
@@ -234,8 +236,9 @@ func guard(f func() Res) (res Res) {
 		used := stepFuel - simrt.Fuel
 		simrt.Fuel = 0
 		r := recover()
-		if r == simrt.ErrFuel {
-			fuelOuts++
+		if simrt.FuelOuts > 0 {
+			fuelOuts += simrt.FuelOuts
+			simrt.FuelOuts = 0
 		} else if used > guardMaxSteps {
 			guardMaxSteps = used
 		}
